@@ -110,52 +110,85 @@ def v_bootstrap(rng, fail):
     npar = rng.choice([1, 2, 3, 4])
     nrep = rng.choice([2, 3, 5, 8, 13, 21, 34, 50])
     names = ['P%d' % i for i in range(npar)]
-    est = [[F(rng.randrange(-200, 400), rng.choice([1, 2, 4, 8, 16])) for _ in names] for _ in range(nrep)]
+    style = rng.choice(['plain', 'permuted', 'permuted', 'ragged', 'ragged'])
+    # replicate k: dict name -> value; label ORDER, missing labels and extra labels vary per replicate
+    reps, orders = [], []
+    for k in range(nrep):
+        d = {nm: F(rng.randrange(-200, 400), rng.choice([1, 2, 4, 8, 16])) for nm in names}
+        if style == 'ragged':
+            if npar > 1 and rng.random() < 0.3:
+                del d[rng.choice(names)]
+            if rng.random() < 0.3:
+                d['X_EXTRA'] = F(rng.randrange(0, 40), 4)
+        order = list(d)
+        if style != 'plain':
+            rng.shuffle(order)
+        reps.append(d)
+        orders.append(order)
+    cols = orders[0]                      # the table is re-indexed to the labels of the FIRST replicate
     ofv = [F(rng.randrange(-400, 400), 4) for _ in range(nrep)]
     ids = list(range(1, rng.choice([3, 5, 8]) + 1))
     iofv = {i: F(rng.randrange(0, 80), 8) for i in ids}
-    orig_est = [F(rng.randrange(-200, 400), 8) for _ in names]
+    orig_est = {nm: F(rng.randrange(-200, 400), 8) for nm in names}
+    orig_order = list(names)
+    if style != 'plain':
+        rng.shuffle(orig_order)
+        if style == 'ragged' and npar > 1 and rng.random() < 0.3:
+            orig_order = orig_order[:-1]
     orig_ofv = sum(iofv.values())
     inc = [[rng.choice(ids) for _ in ids] for _ in range(nrep)]
     dofv = [None if rng.random() < 0.2 else F(rng.randrange(-400, 400), 4) for _ in range(nrep)]
     with_orig = rng.random() < 0.85
-    results = [ModelfitResults(ofv=float(o), parameter_estimates=pd.Series([float(x) for x in e], index=names))
-               for o, e in zip(ofv, est)]
-    orig = ModelfitResults(ofv=float(orig_ofv), parameter_estimates=pd.Series([float(x) for x in orig_est], index=names),
+    results = [ModelfitResults(ofv=float(o), parameter_estimates=pd.Series([float(d[n]) for n in order], index=order))
+               for o, d, order in zip(ofv, reps, orders)]
+    orig = ModelfitResults(ofv=float(orig_ofv), parameter_estimates=pd.Series([float(orig_est[n]) for n in orig_order], index=orig_order),
                            individual_ofv=pd.Series([float(iofv[i]) for i in ids], index=ids)) if with_orig else None
     with warnings.catch_warnings():
         warnings.simplefilter('ignore')
         r = calculate_results(None, results, original_results=orig, included_individuals=inc,
                               dofv_results=[None if d is None else ModelfitResults(ofv=float(d)) for d in dofv])
     n = 0
-    ps, pd_, cm = r.parameter_statistics, r.parameter_distribution, r.covariance_matrix
-    for j, nm in enumerate(names):
-        col = [e[j] for e in est]
-        checks = [('mean', mean(col), ps.loc[nm, 'mean']), ('median', median(col), ps.loc[nm, 'median'])]
-        if nrep >= 2:
+    ps, pd_, cm, pe = r.parameter_statistics, r.parameter_distribution, r.covariance_matrix, r.parameter_estimates
+
+    def same(ref, got, what, detail):
+        """ref None = NaN expected"""
+        nonlocal n
+        n += 1
+        if ref is None:
+            if not (isinstance(got, float) or hasattr(got, 'dtype')) or not math.isnan(float(got)):
+                fail(what, detail + f': expected NaN, tool {got!r}')
+        elif not close(ref, got):
+            fail(what, detail + f': reference {float(ref)!r} tool {got!r}')
+
+    if list(pe.columns) != cols or not set(cols) <= set(ps.index):
+        fail('bootstrap table labels', f'{list(pe.columns)} vs first replicate {cols}')
+    for k, d in enumerate(reps):               # the stacked table itself, aligned by NAME
+        for nm in cols:
+            same(d.get(nm), pe.loc[k, nm], 'bootstrap parameter_estimates table (alignment by name)', f'row {k} {nm}')
+    for nm in cols:
+        col = [d[nm] for d in reps if nm in d]              # NaN (missing) replicates are skipped
+        same(mean(col), ps.loc[nm, 'mean'], 'bootstrap mean', nm)
+        same(median(col), ps.loc[nm, 'median'], 'bootstrap median', nm)
+        if len(col) >= 2:
             v = var(col)
+            n += 3
             if not close_sq(v, ps.loc[nm, 'stderr']):
                 fail('bootstrap stderr', nm)
             if mean(col) != 0 and v != 0 and not close_sq(v / mean(col) ** 2, abs(ps.loc[nm, 'RSE'])):
                 fail('bootstrap RSE', nm)
-            if mean(col) != 0 and (ps.loc[nm, 'RSE'] < 0) != (mean(col) < 0):
+            if mean(col) != 0 and v != 0 and (ps.loc[nm, 'RSE'] < 0) != (mean(col) < 0):
                 fail('bootstrap RSE sign', nm)
-            n += 3
-        if with_orig:
-            checks.append(('bias', mean(col) - orig_est[j], ps.loc[nm, 'bias']))
-        elif not math.isnan(ps.loc[nm, 'bias']):
-            fail('bootstrap bias without original', nm)
-        checks += [('min', min(col), pd_.loc[nm, 'min']), ('max', max(col), pd_.loc[nm, 'max']),
-                   ('dist median', median(col), pd_.loc[nm, 'median'])]
+        same(mean(col) - orig_est[nm] if with_orig and nm in orig_order else None, ps.loc[nm, 'bias'], 'bootstrap bias', nm)
+        same(min(col), pd_.loc[nm, 'min'], 'bootstrap min', nm)
+        same(max(col), pd_.loc[nm, 'max'], 'bootstrap max', nm)
+        same(median(col), pd_.loc[nm, 'median'], 'bootstrap dist median', nm)
         for lab, q in (('0.05%', F(5, 10000)), ('0.5%', F(5, 1000)), ('2.5%', F(25, 1000)), ('5%', F(5, 100)),
                        ('95%', F(95, 100)), ('97.5%', F(975, 1000)), ('99.5%', F(995, 1000)), ('99.95%', F(9995, 10000))):
-            checks.append((lab, quantile(col, q), pd_.loc[nm, lab]))
-        for k, nm2 in enumerate(names):
-            checks.append(('cov', cov(col, [e[k] for e in est]), cm.loc[nm, nm2]))
-        for lab, ref, got in checks:
-            n += 1
-            if not close(ref, got):
-                fail('bootstrap ' + lab, f'{nm}: reference {float(ref)!r} tool {got!r}')
+            same(quantile(col, q), pd_.loc[nm, lab], 'bootstrap ' + lab, nm)
+        for nm2 in cols:                                     # pairwise complete observations
+            pairs = [(d[nm], d[nm2]) for d in reps if nm in d and nm2 in d]
+            same(cov([a for a, _ in pairs], [b for _, b in pairs]) if len(pairs) >= 2 else None, cm.loc[nm, nm2],
+                 'bootstrap covariance', f'{nm},{nm2}')
     o = r.ofvs
     for i in range(nrep):
         exp_boot = sum(iofv[k] for k in inc[i]) if with_orig else None
@@ -164,17 +197,10 @@ def v_bootstrap(rng, fail):
                 ('delta_bootdata', None if exp_boot is None else exp_boot - ofv[i]),
                 ('delta_origdata', None if dofv[i] is None or not with_orig else dofv[i] - orig_ofv)]
         for lab, ref in rows:
-            got = o.loc[i, lab]
-            n += 1
-            if ref is None:
-                if not math.isnan(got):
-                    fail('bootstrap ofvs ' + lab, f'row {i}: expected NaN, tool {got!r}')
-            elif not close(ref, got):
-                fail('bootstrap ofvs ' + lab, f'row {i}: reference {float(ref)!r} tool {got!r}')
+            same(ref, o.loc[i, lab], 'bootstrap ofvs ' + lab, f'row {i}')
     st = r.ofv_statistics
-    n += 2
-    if not close(mean(ofv), st.loc['bootstrap_bootdata_ofv', 'mean']) or not close(median(ofv), st.loc['bootstrap_bootdata_ofv', 'median']):
-        fail('bootstrap ofv statistics', '')
+    same(mean(ofv), st.loc['bootstrap_bootdata_ofv', 'mean'], 'bootstrap ofv statistics', 'mean')
+    same(median(ofv), st.loc['bootstrap_bootdata_ofv', 'median'], 'bootstrap ofv statistics', 'median')
     return n
 
 
@@ -190,10 +216,23 @@ def v_cdd(rng, fail):
     base = [F(rng.randrange(-40, 80), 8) for _ in names]
     est = [[b + F(rng.randrange(-16, 17), 16) for b in base] for _ in range(ncase)]
     C = spd(rng, npar)
-    df_est = pd.DataFrame([[float(x) for x in e] for e in est], columns=names, index=['c%d' % i for i in range(ncase)])
+    # label ORDER: every replicate Series may list the parameters in its own order, the base results in another one.
+    # compute_cook_scores is positional w.r.t. the covariance matrix (finding C19-CDD-COOK-POSITIONAL): the random inputs
+    # stay inside its precondition (first replicate in the base's order, or the base's order sorted).
+    permute = rng.random() < 0.6
+    rep_orders = [rng.sample(names, npar) if permute else list(names) for _ in range(ncase)]
+    base_order = rng.sample(names, npar) if permute else list(names)
+    if rep_orders[0] != base_order and base_order != sorted(base_order):
+        base_order = sorted(base_order) if rng.random() < 0.5 else list(rep_orders[0])
+    ix = {nm: j for j, nm in enumerate(names)}
+    df_est = pd.DataFrame(data=[pd.Series([float(e[ix[nm]]) for nm in order], index=order, name='c%d' % i)
+                                for i, (e, order) in enumerate(zip(est, rep_orders))])
     n = 0
+    if sorted(df_est.columns) != names:
+        fail('cdd estimates table labels', str(list(df_est.columns)))
     # jackknife covariance = (N-1)/N * sum (theta_i - mean)(theta_i - mean)^T
     J = compute_jackknife_covariance_matrix(df_est)
+    J = J.loc[names, names]                                   # compared by NAME
     Jref = [[F(ncase - 1, ncase) * sum((e[a] - mean([x[a] for x in est])) * (e[b] - mean([x[b] for x in est])) for e in est)
              for b in range(npar)] for a in range(npar)]
     for a in range(npar):
@@ -202,8 +241,8 @@ def v_cdd(rng, fail):
             if not close(Jref[a][b], J.iloc[a, b]):
                 fail('jackknife covariance', f'[{a},{b}] reference {float(Jref[a][b])!r} tool {J.iloc[a, b]!r}')
     # Cook score^2 = (theta_i - theta)^T C^-1 (theta_i - theta)
-    cooks = compute_cook_scores(pd.Series([float(b) for b in base], index=names), df_est,
-                                pd.DataFrame([[float(x) for x in row] for row in C], index=names, columns=names))
+    cov_df = pd.DataFrame([[float(x) for x in row] for row in C], index=names, columns=names).loc[base_order, base_order]
+    cooks = compute_cook_scores(pd.Series([float(base[ix[nm]]) for nm in base_order], index=base_order), df_est, cov_df)
     if cooks is None:
         fail('cook scores', 'returned None on a positive definite matrix')
     else:
@@ -213,6 +252,22 @@ def v_cdd(rng, fail):
             n += 1
             if not close_sq(ref, got):
                 fail('cook score', f'reference^2 {float(ref)!r} tool {got!r}')
+    # a replicate lacking a parameter must not yield numbers computed from misaligned columns
+    if npar > 1 and rng.random() < 0.3:
+        drop = rng.choice(names)
+        ragged = pd.DataFrame(data=[pd.Series([float(e[ix[nm]]) for nm in names if not (i == 0 and nm == drop)],
+                                              index=[nm for nm in names if not (i == 0 and nm == drop)], name='c%d' % i)
+                                    for i, e in enumerate(est)])
+        rc = compute_cook_scores(pd.Series([float(b) for b in base], index=names), ragged,
+                                 pd.DataFrame([[float(x) for x in row] for row in C], index=names, columns=names))
+        n += 1
+        if rc is not None:
+            if not math.isnan(rc[0]):
+                fail('cook score with a missing parameter', f'replicate 0 lacks {drop} but got {rc[0]!r}')
+            for e, got in zip(est[1:], rc[1:]):
+                d = [x - b for x, b in zip(e, base)]
+                if not math.isnan(got) and not close_sq(sum(di * si for di, si in zip(d, solve(C, d))), got):
+                    fail('cook score next to a ragged replicate', repr(got))
     # covariance ratio^2 = det(C_i) / det(C)
     Cs = [None if rng.random() < 0.2 else spd(rng, npar) for _ in range(ncase)]
     ress = [None if rng.random() < 0.1 else ModelfitResults(
@@ -321,31 +376,74 @@ def v_simeval(rng, fail):
     nind = rng.choice([1, 2, 4, 7])
     nsim = rng.choice([2, 3, 5, 10, 50])
     ids = list(range(1, nind + 1))
-    sims = [[F(rng.randrange(0, 160), 8) for _ in ids] for _ in range(nsim)]
-    orig = [F(rng.randrange(0, 400), 8) for _ in ids]
-    sf = SimpleNamespace(modelfit_results=[ModelfitResults(individual_ofv=pd.Series([float(x) for x in s], index=ids)) for s in sims])
-    r = calculate_results(None, ModelfitResults(individual_ofv=pd.Series([float(x) for x in orig], index=ids)), sf)
+    style = rng.choice(['plain', 'permuted', 'ragged'])
+    sims, orders = [], []
+    for _ in range(nsim):
+        d = {i: F(rng.randrange(0, 160), 8) for i in ids}
+        if style == 'ragged':
+            if nind > 1 and rng.random() < 0.3:
+                del d[rng.choice(ids)]
+            if rng.random() < 0.2:
+                d[99] = F(rng.randrange(0, 160), 8)          # an individual the original results do not have
+        order = list(d)
+        if style != 'plain':
+            rng.shuffle(order)
+        sims.append(d)
+        orders.append(order)
+    orig = {i: F(rng.randrange(0, 400), 8) for i in ids}
+    orig_order = list(ids)
+    if style != 'plain':
+        rng.shuffle(orig_order)
+    sf = SimpleNamespace(modelfit_results=[ModelfitResults(individual_ofv=pd.Series([float(d[i]) for i in order], index=order))
+                                           for d, order in zip(sims, orders)])
+    with warnings.catch_warnings():
+        warnings.simplefilter('ignore')
+        r = calculate_results(None, ModelfitResults(individual_ofv=pd.Series([float(orig[i]) for i in orig_order], index=orig_order)), sf)
     s = r.iofv_summary
     n = 0
-    for j, i in enumerate(ids):
-        col = [row[j] for row in sims]
-        m, v = mean(col), var(col)
-        n += 2
-        if not close(m, s.loc[i, 'sampled_mean']) or not close_sq(v, s.loc[i, 'sampled_stdev']):
-            fail('simeval mean / stdev', f'id {i}')
+    for i in ids:
+        col = [d[i] for d in sims if i in d]                 # by LABEL, missing simulations skipped
+        if not col:
+            continue
+        m = mean(col)
+        n += 1
+        if not close(m, s.loc[i, 'sampled_mean']):
+            fail('simeval mean', f'id {i}: reference {float(m)!r} tool {s.loc[i, "sampled_mean"]!r}')
+        if not close(orig[i], s.loc[i, 'original']):
+            fail('simeval original', f'id {i}')
+        if len(col) < 2:
+            continue
+        v = var(col)
+        n += 1
+        if not close_sq(v, s.loc[i, 'sampled_stdev']):
+            fail('simeval stdev', f'id {i}')
         if v != 0:
-            for lab, ref_num in (('residual', orig[j] - m), ('residual_q1', orig[j] - quantile(col, F(1, 4))),
-                                 ('residual_q3', orig[j] - quantile(col, F(3, 4)))):
+            for lab, ref_num in (('residual', orig[i] - m), ('residual_q1', orig[i] - quantile(col, F(1, 4))),
+                                 ('residual_q3', orig[i] - quantile(col, F(3, 4)))):
                 got = s.loc[i, lab]
                 n += 1
                 if not close_sq(ref_num ** 2 / v, abs(got)) or (ref_num != 0 and (got < 0) != (ref_num < 0)):
                     fail('simeval ' + lab, f'id {i}: reference^2 {float(ref_num ** 2 / v)!r} tool {got!r}')
             n += 1
-            res2 = (orig[j] - m) ** 2 / v
-            exp_out = orig[j] - m >= 0 and res2 >= 9
+            res2 = (orig[i] - m) ** 2 / v
+            exp_out = orig[i] - m >= 0 and res2 >= 9
             if abs(res2 - 9) > F(1, 10 ** 6) and bool(s.loc[i, 'residual_outlier']) != exp_out:
                 fail('simeval outlier flag', f'id {i}')
     return n
+
+
+def probe_cook_positional():
+    """Witness of finding C19-CDD-COOK-POSITIONAL: returns (reproduced, detail)."""
+    import numpy as np
+    import pandas as pd
+    from pharmpy.tools.cdd.results import compute_cook_scores
+    base = pd.Series([2.0, 1.0, 3.0], index=['B', 'A', 'C'])
+    C = pd.DataFrame(np.diag([4.0, 1.0, 9.0]), index=['B', 'A', 'C'], columns=['B', 'A', 'C'])
+    est = pd.DataFrame(data=[pd.Series({'C': 30.0, 'A': 10.0, 'B': 20.0}).rename('m0')])
+    got = compute_cook_scores(base, est, C)
+    ref = F(9 ** 2, 1) + F(18 ** 2, 4) + F(27 ** 2, 9)            # by name: (10-1)^2/1 + (20-2)^2/4 + (30-3)^2/9 = 243
+    ok = got is not None and close_sq(ref, got[0])
+    return (not ok), f'defining formula sqrt({ref}) = {math.sqrt(ref)!r}, tool {None if got is None else float(got[0])!r}'
 
 
 PARTS = [('bootstrap', v_bootstrap), ('cdd', v_cdd), ('shrinkage', v_shrinkage), ('delta_method', v_delta),
@@ -369,6 +467,8 @@ def run(ctx):
     for part, _ in PARTS:
         total = 0
         nf = 0
+        if part == 'bootstrap':
+            reps = dict(reps, bootstrap=reps['bootstrap'] + 8)
         for i in range(reps[part]):
             seed = f'{ctx.seed}-stats-{part}-{i}'
             try:
@@ -381,7 +481,9 @@ def run(ctx):
                 ctx.violation(f'statistic does not equal its defining formula: {what}',
                               {'stats': {'part': part, 'seed': seed}, 'detail': detail})
         out[part] = {'sets': reps[part], 'values_compared': total, 'failures': nf}
+    out['input_styles'] = ('replicate Series / frames with identical, permuted and ragged (missing + extra labels) label order; '
+                           'reference recomputed ALIGNED BY NAME, NaN = absent, pairwise-complete covariance')
     ctx.coverage['validation_only_statistics'] = out
     ctx.notes.append('resampling / diagnostic statistics: VALIDATION ONLY (exact rational recomputation, tolerance 1e-9), '
                      'not part of the proof obligations')
-    ctx.log('statistics validation done', {k: v['values_compared'] for k, v in out.items()})
+    ctx.log('statistics validation done', {k: v['values_compared'] for k, v in out.items() if isinstance(v, dict)})
